@@ -20,7 +20,7 @@ THEOREM_MODULES = ["Yarel.Props.C13", "Yarel.Props.C12", "Yarel.Props.C04", "Yar
 REQUIRED_THEOREMS = ["no_fault", "unhashable_rejected_unchanged", "verify_sound", "guard_free_equiv"]
 if os.path.exists(os.path.join(vlib.LEAN_DIR, "Yarel", "Props", "SitesInventory.lean")):
     THEOREM_MODULES.append("Yarel.Props.SitesInventory")
-    REQUIRED_THEOREMS.append("sites_accounted_runtime")
+    REQUIRED_THEOREMS.append("sites_accounted_run_time")
 USES_GEN = True
 LEVEL = "proof"
 ASSUMPTIONS = [
